@@ -159,6 +159,24 @@ func runC30(c *Ctx) {
 			c.ArgIs(cl, "body reader: a fixed-length body is limited to the announced length", sr, 1, 2, "var:bodyLength")
 			c.MP(cl, "body reader: a fixed-length body is handed out only if its length part was read", sr, 1, GOk("broker.readLength(ctx)"), GTrue("errors.Is(broker.readLength(ctx)#1, io.EOF)"))
 			c.StoredIs(cl, "body reader: body type is the one read", c.StoresD(cl, "&var:bodyType"), 1, "broker.readBodyType(ctx)#0")
+			// a fixed-length body stays the empty buffer only for length 0 (or a stream that ended)
+			var empty []ssa.Instruction
+			for _, in := range c.StoresD(cl, "&var:body") {
+				if in.Block() != nil && len(rl) == 1 && in.Block() == storeBlock(c, cl, "&var:bodyLength") {
+					empty = append(empty, in)
+				}
+			}
+			if c.Exists(cl, "body reader: the fixed-length case starts from the empty body", empty, 1) {
+				var sect ssa.Instruction
+				for _, in := range c.StoresD(cl, "&var:body") {
+					if strings.HasPrefix(c.D(in.(*ssa.Store).Val), "io.NewSectionReader(") {
+						sect = in
+					}
+				}
+				c.MPFrom(cl, empty[0], "body reader: the empty body is kept only for length 0 or an ended stream", c.SuccessReturns(cl), 1,
+					Gate{Name: "limited reader installed", Barrier: func(p *Prog, in ssa.Instruction) bool { return sect != nil && in == sect }},
+					GCmp("var:bodyLength", "<=", "0"), GTrue("errors.Is(broker.readLength(ctx)#1, io.EOF)"))
+			}
 		} else {
 			c.Unresolved(parent, "closure reading the body", "not found")
 		}
@@ -212,9 +230,18 @@ func runC30(c *Ctx) {
 	}
 	c.OnlyIn("use of the raw reader of a broker", c.WhoTouches("baseBroker", "Reader"), 4,
 		"network/quicstream/header.newBaseBroker", B+"read", B+"readLength", B+"readLengthed", B+"readBody")
+	ensureReadRules(c)
 	for _, t := range [][2]string{{"read", "util.EnsureRead"}, {"readLength", "util.ReadLength"}, {"readLengthed", "util.ReadLengthed"}} {
 		if fn := c.Need(B + t[0]); fn != nil {
 			c.Exists(fn, t[0]+" reads through "+t[1], c.CallsTo(fn, t[1]), 1)
 		}
 	}
+}
+
+// storeBlock: the block of the (first) store to the address rendered as addr in fn.
+func storeBlock(c *Ctx, fn *ssa.Function, addr string) *ssa.BasicBlock {
+	for _, in := range c.StoresD(fn, addr) {
+		return in.Block()
+	}
+	return nil
 }
